@@ -396,6 +396,10 @@ func (g *GcsEmu) handleGcsUpdateMetadataRequest(ctx context.Context, baseUrl Htt
 			return fmtErrorfCode(http.StatusBadRequest, "failed to parse request: empty metadata")
 		}
 
+		// A patch changes metadata only, never what identifies the content.
+		patched.Generation = obj.Generation
+		patched.Md5Hash = obj.Md5Hash
+
 		if err := g.store.UpdateMeta(bucket, filename, patched, metagen+1); err != nil {
 			return fmt.Errorf("failed to update attrs of %s/%s: %w", bucket, filename, err)
 		}
